@@ -14,7 +14,7 @@ import (
 // what the owner encrypts the device decrypts to the same plaintext, and back.
 func vTunnelUsable(suite Suite) {
 	verif.NoPanic()
-	verif.Bound("C09 tunnel "+string(suite), "7 registered cipher suites; honest exchange with symbolic randomness; one 2-byte message in each direction through the real SessionCrypter (cipher primitives idealised)")
+	verif.Bound("C09 tunnel "+string(suite), "7 registered cipher suites; honest exchange with symbolic randomness; one message of 2 or 15 bytes (CBOR plaintext of 3 resp. exactly 16 bytes) in each direction through the real SessionCrypter (cipher primitives idealised)")
 	cipher := vCipherIDs[verif.Choose("cipher", len(vCipherIDs))]
 	verif.SetGhost("exp-leading-zero-bytes", 0)
 	verif.SetGhost("exp-nondegenerate", 1)
@@ -37,7 +37,9 @@ func vTunnelUsable(suite Suite) {
 	xB, err := device.Parameter(verif.M_RandReader, pub)
 	verif.Assert(err == nil, "device Parameter")
 	verif.Assert(owner.SetParameter(xB, priv) == nil, "owner SetParameter")
-	payload := verif.Bytes("payload", 2)
+	// 2 bytes, and 15 bytes: the CBOR plaintext (16 bytes) is then a whole number of AES blocks,
+	// so the CBC suites append a full block of padding
+	payload := verif.Bytes("payload", []int{2, 15}[verif.Choose("npayload", 2)])
 	plain, err := cbor.Marshal(payload)
 	verif.Assert(err == nil, "payload encodes")
 	for dir, pair := range [][2]Session{{owner, device}, {device, owner}} {
